@@ -77,6 +77,8 @@ HDR_VARIANTS = [
     ('both', b'Date: Wed, 31 Dec 2014 23:58:00 +0000', b'Message-Id: <orig.2@example.test>'),
     # present but empty: still "not absent"
     ('both-empty', b'Date:', b'Message-Id: '),
+    # a message without a single header field (the header block is empty)
+    ('no-headers', None, None),
 ]
 
 
@@ -246,6 +248,8 @@ class RecordingStorage(QueueStorage):
 
 def message_data(hv):
     label, date, mid = HDR_VARIANTS[hv]
+    if label == 'no-headers':
+        return b'\r\n' + BODY
     lines = [OLD_RECEIVED, b'From: sender@example.test', b'To: list@example.test']
     if date:
         lines.append(date)
@@ -320,7 +324,7 @@ class Case(object):
             t = make_envelope((), hv)
             items = [(str(k), str(v)) for k, v in t.headers.raw_items()]
             c = make_envelope((), hv, t)
-            if (t.message != BODY or len(items) < 5 or c.headers is t.headers or c.headers._headers is t.headers._headers
+            if (t.message != BODY or (len(items) < 5 and HDR_VARIANTS[hv][0] != 'no-headers') or c.headers is t.headers or c.headers._headers is t.headers._headers
                     or [(str(k), str(v)) for k, v in c.headers.raw_items()] != items or c.flatten() != t.flatten()
                     or type(c.headers) is not type(t.headers)):
                 raise HarnessError('input envelope not built as intended: %r %r' % (items, t.message))
@@ -548,6 +552,8 @@ def header_variants_for(chain, rcpts):
                             for chains with a Date/Message-Id policy x lists of length <= 2."""
     relevant = 'AddDateHeader' in chain or 'AddMessageIdHeader' in chain
     out = [0]
+    if len(rcpts) >= 2 and len(chain) <= 3:
+        out.append(5)          # header-less message: only interesting when something is split and edited afterwards
     if relevant and len(rcpts) <= 2:
         out += [1, 2, 4]
     if relevant or len(chain) <= 2:
@@ -680,9 +686,7 @@ def vacuity(counters, tier):
         if not counters.get(k):
             problems.append('counter %s is 0' % k)
     lists = list(all_rcpt_lists())
-    n_short = sum(1 for rc in lists if len(rc) <= 2)
-    want = sum(n_short * len(header_variants_for(c, ())) + (len(lists) - n_short) * len(header_variants_for(c, (0, 0, 0)))
-               for c in all_chains(_max_chain(tier)))
+    want = sum(len(header_variants_for(c, rc)) for c in all_chains(_max_chain(tier)) for rc in lists)
     if counters.get('cases') != want:
         problems.append('ran %r cases, the product is %d' % (counters.get('cases'), want))
     return problems
